@@ -19,6 +19,7 @@
 #include "myth_init_func.h"
 #include "myth_misc_func.h"
 #include "myth_worker_func.h"
+#include "myth_spinlock_func.h"
 
 /* allocate a node (internal or leaf) of a tls tree */
 static inline myth_tls_tree_node_t *
@@ -250,6 +251,7 @@ static inline void myth_tls_key_allocator_init(myth_tls_key_allocator_t * s) {
   }
   s->keys[myth_tls_n_keys - 1].next = 0;
   s->free = &s->keys[0];
+  myth_spin_init_body(&s->lock);
 }
 
 static inline void myth_tls_key_allocator_fini(myth_tls_key_allocator_t * s) {
@@ -269,21 +271,19 @@ static inline void myth_tls_fini() {
 static inline int
 myth_tls_key_allocator_alloc(myth_tls_key_allocator_t * s,
 			     myth_tls_destructor_fun_t destructor) {
-  while (1) {
-    /* try to pull the element from the free list */
-    myth_tls_key_entry_t * ke = s->free;
-    if (ke) {
-      myth_tls_key_entry_t * next = ke->next;
-      if (__sync_bool_compare_and_swap(&s->free, ke, next)) {
-	/* mark the key as used */
-	ke->next = (myth_tls_key_entry_t *)-1;
-	ke->destructor = destructor;
-	return ke - s->keys;
-      }
-    } else {
-      return -1;
-    }
+  int key = -1;
+  myth_spin_lock_body(&s->lock);
+  /* pull the element from the free list */
+  myth_tls_key_entry_t * ke = s->free;
+  if (ke) {
+    s->free = ke->next;
+    /* mark the key as used */
+    ke->next = (myth_tls_key_entry_t *)-1;
+    ke->destructor = destructor;
+    key = ke - s->keys;
   }
+  myth_spin_unlock_body(&s->lock);
+  return key;
 }
 
 /* deallocate a key */
@@ -293,19 +293,18 @@ myth_tls_key_allocator_dealloc(myth_tls_key_allocator_t * s, int key) {
     return (myth_tls_destructor_fun_t)-1;
   }
   myth_tls_key_entry_t * ke = &s->keys[key];
+  myth_spin_lock_body(&s->lock);
   /* make sure the key is being used */
   if (ke->next != (myth_tls_key_entry_t *)-1) {
+    myth_spin_unlock_body(&s->lock);
     return (myth_tls_destructor_fun_t)-1;
   }
   myth_tls_destructor_fun_t f = ke->destructor;
-  while (1) {
-    /* try to push the cell to the free list */
-    myth_tls_key_entry_t * head = s->free;
-    ke->next = head;
-    if (__sync_bool_compare_and_swap(&s->free, head, ke)) {
-      return f;
-    }
-  }
+  /* push the cell to the free list */
+  ke->next = s->free;
+  s->free = ke;
+  myth_spin_unlock_body(&s->lock);
+  return f;
 }
 
 static inline int myth_key_create_body(myth_key_t * key,
